@@ -205,6 +205,20 @@ impl World {
                 }
             }
         }
+        if outcome != "ok" && eff.cleandir {
+            // a failing command cleans up: output directories that are empty are removed
+            let mut gone = Vec::new();
+            for o in &eff.outs {
+                if let Some(parent) = Path::new(o).parent() {
+                    if !parent.as_os_str().is_empty() && std::fs::remove_dir(parent).is_ok() {
+                        gone.push(parent.display().to_string());
+                    }
+                }
+            }
+            if !gone.is_empty() {
+                notes.insert("rmdir".into(), json!(gone));
+            }
+        }
         // what the command reports
         let mut output = eff.output.clone().into_bytes();
         if outcome == "ok" || eff.failwrites {
@@ -261,6 +275,7 @@ fn build_json(b: &BuildInfo) -> Value {
     json!({
         "id": b.id + 1,
         "line": b.line,
+        "loc": format!("{}:{}", b.file, b.line),
         "outs": b.outs,
         "nxo": b.explicit_outs,
         "ins": dirty,
@@ -447,6 +462,13 @@ impl verif::Hooks for H {
             None => String::new(),
         };
         let (writes, output, notes) = w.finish_effects(s, &outcome);
+        // How the pipe happens to cut the command's output into reads is the environment's
+        // choice; what n2 shows and extracts must not depend on it.
+        let chunk = if eff.chunk > 0 {
+            eff.chunk
+        } else {
+            [0usize, 1, 5, 13, 64][(s * 7 + w.wait_no * 3) % 5]
+        };
         let run: Vec<usize> = cands.iter().map(|k| k + 1).collect();
         let hasdeps = !eff.depfile.is_empty() || eff.msvc;
         let (reported, reads) = if hasdeps {
@@ -456,7 +478,7 @@ impl verif::Hooks for H {
         };
         w.ev(json!({"e":"finish","id":s,"out":outcome,"writes":writes,
             "reported":reported,"reads":reads,"hasdeps":hasdeps,"shown":eff.output,
-            "dirsok":dirs_ok,"rspdisk":rspdisk,"notes":notes,"cands":run}));
+            "dirsok":dirs_ok,"rspdisk":rspdisk,"notes":notes,"cands":run,"chunk":chunk}));
         if let Some(pos) = w.running.iter().position(|(id, _)| *id == choice) {
             w.running.remove(pos);
         }
@@ -467,7 +489,7 @@ impl verif::Hooks for H {
             _ => CommandTermination::Failure,
         };
         drop(w);
-        verif::release_command(&cmd, CommandResult { termination, output });
+        verif::release_command(&cmd, CommandResult { termination, output, chunk });
     }
 
     fn runner_done(&mut self, id: usize, termination: &'static str) {
@@ -549,9 +571,73 @@ impl verif::Hooks for H {
                     "out":String::from_utf8_lossy(&output),
                     "hasdisc":has,"disc":discovered.unwrap_or_default()}))
             }
-            ProgressEvent::Log(m) => w.ev(json!({"e":"pl","msg":m})),
+            ProgressEvent::Log(m) => {
+                let x = parse_explain(&m);
+                w.ev(json!({"e":"pl","msg":m,"x":x}))
+            }
         }
     }
+}
+
+/// Lexical decoding of the lines `-d explain` logs (work.rs check_build_dirty, hash.rs
+/// ExplainHash): the reason line, and the listing of what was hashed.  No judgement here: the
+/// trace specification compares it with the manifest rule.  mtimes come back as scenario ticks.
+fn parse_explain(m: &str) -> Value {
+    fn stamp(line: &str) -> Option<Value> {
+        let l = line.strip_prefix("  ")?;
+        let (ms, name) = l.split_once(' ')?;
+        let ms: u64 = ms.parse().ok()?;
+        let tick = (ms / 1000) as i64 - BASE_TIME as i64;
+        Some(json!([name, tick]))
+    }
+    if let Some(rest) = m.strip_prefix("explain: ") {
+        if let Some(loc) = rest.strip_suffix(": no previous state known") {
+            return json!({"kind":"norec","loc":loc,"file":""});
+        }
+        if let Some(loc) = rest.strip_suffix(": manifest changed") {
+            return json!({"kind":"changed","loc":loc,"file":""});
+        }
+        if let Some(body) = rest.strip_suffix(" missing") {
+            if let Some(i) = body.find(": input ") {
+                return json!({"kind":"missing","loc":&body[..i],"file":&body[i + 8..]});
+            }
+        }
+        return json!({"kind":"other","loc":"","file":""});
+    }
+    if m.starts_with("in:\n") {
+        let mut sec = "";
+        let (mut ins, mut disc, mut outs) = (Vec::new(), Vec::new(), Vec::new());
+        let mut cmd = String::new();
+        let mut rsp = String::new();
+        let mut hasrsp = false;
+        let mut bad = false;
+        for line in m.lines() {
+            if line == "in:" || line == "discovered:" || line == "out:" {
+                sec = line;
+            } else if let Some(c) = line.strip_prefix("cmdline: ") {
+                cmd = c.to_string();
+                sec = "";
+            } else if line == "cmdline:" {
+                sec = "";
+            } else if let Some(p) = line.strip_prefix("rspfile path: ") {
+                rsp = p.to_string();
+                hasrsp = true;
+            } else if line.starts_with("rspfile hash: ") {
+            } else if let Some(s) = stamp(line) {
+                match sec {
+                    "in:" => ins.push(s),
+                    "discovered:" => disc.push(s),
+                    "out:" => outs.push(s),
+                    _ => bad = true,
+                }
+            } else {
+                bad = true;
+            }
+        }
+        return json!({"kind":"sig","ins":ins,"disc":disc,"cmd":cmd,"rsp":rsp,"hasrsp":hasrsp,
+                      "outs":outs,"bad":bad,"loc":"","file":""});
+    }
+    json!({"kind":"","loc":"","file":""})
 }
 
 fn wait_registered(n: usize) -> Vec<String> {
@@ -736,9 +822,10 @@ impl Engine {
                     deps,
                     recorded,
                     unknown,
+                    nok,
                 } => {
                     world.borrow_mut().ev(
-                        json!({"e":"expect","ran":ran,"ok":ok,"deps":deps,"recorded":recorded,"unknown":unknown}),
+                        json!({"e":"expect","ran":ran,"ok":ok,"deps":deps,"recorded":recorded,"unknown":unknown,"nok":nok}),
                     );
                 }
             }
@@ -767,7 +854,7 @@ impl Engine {
             let file = inv.file.clone();
             w.set_effs_for(&file);
             w.ev(json!({"e":"invoke","targets":inv.targets,"j":inv.j,"k":inv.k,
-                "adopt":inv.adopt,"file":inv.file,"argv":inv.argv}));
+                "adopt":inv.adopt,"file":inv.file,"argv":inv.argv,"explain":inv.explain}));
         }
         verif::set_scripted(true);
         verif::install(Box::new(H(world.clone())));
